@@ -71,6 +71,9 @@ int main(int argc, const char *argv[]) {
         reportMemoryInfo = true;
       } else if (std::strcmp(argv[i], "--output") == 0 ||
                  std::strcmp(argv[i], "-o") == 0) {
+        if (i + 1 >= argc) {
+          throw std::runtime_error(std::string("missing argument to ")+argv[i]);
+        }
         outputFilename = argv[++i];
       } else if (argv[i][0] == '-') {
           throw std::runtime_error(std::string("unrecognised argument: ")+argv[i]);
